@@ -40,11 +40,13 @@ func init() {
 		Rule: "one case = one generated workflow (emphasis on fan-out of one out-port to several consumers incl. tagging components, fan-in with concurrent port closing, multi-core tasks, parameter feeders, RunTo) run under one tape-chosen schedule on the race-instrumented build; the in-simulator happens-before checker (vector clocks, edges only from go / channel send-receive / close / mutex / WaitGroup as in the Go memory model) reports every pair of conflicting accesses to a tracked location (maps, struct fields reached through pointers, object graphs handed to encoding/json) that is unordered in that execution. distinct = event-log hash; non-trivial = >=2 tasks and >=1 non-default choice",
 		Run: func(c *Case) Verdict {
 			var w *WF
-			switch c.Tape.Choose(simrt.StGen, 6, 0) {
+			switch c.Tape.Choose(simrt.StGen, 7, 0) {
 			case 1:
 				w = lazyIPFanoutWF(c)
 			case 2:
 				w = streamWF(c) // the consumer holds the streamed IP while the producer still works on it
+			case 3:
+				w = taggerChainWF(c) // a linear stream through two tagging components in a row
 			default:
 				w = Generate(c.Tape, tierProfile(profC12, c.Tier))
 				if c.Tape.Choose(simrt.StGen, 5, 0) == 1 {
@@ -55,7 +57,28 @@ func init() {
 			// stdout + log file) instead of error level: the loggers then really write
 			w.FullLogging = c.Tape.Choose(simrt.StGen, 3, 0) == 1
 			c.Sample = sample(w)
-			inc := RunInc(w, c.Tape, nil, 0, IncOpts{KillAt: -1, Strategy: strategyOf(c.Tape), Trace: c.Trace, Race: true})
+			// sometimes two commands fail in the same run (possibly at the same time):
+			// the failure path runs concurrently in two goroutines
+			var fault, fault2 *FaultSpec
+			if c.Tape.Choose(simrt.StFault, 6, 0) == 1 {
+				var cands []*RTask
+				for _, t := range Eval(w).Tasks {
+					if len(t.Outs) > 0 {
+						cands = append(cands, t)
+					}
+				}
+				if len(cands) >= 2 {
+					a := cands[c.Tape.Choose(simrt.StFault, len(cands), 0)]
+					b := cands[c.Tape.Choose(simrt.StFault, len(cands), 0)]
+					fault = &FaultSpec{Key: a.Key, Mode: simrt.FailMode(1 + c.Tape.Choose(simrt.StFault, 3, 0)), Arg: c.Tape.Choose(simrt.StFault, 6, 0)}
+					if b != a {
+						fault2 = &FaultSpec{Key: b.Key, Mode: simrt.FailMode(1 + c.Tape.Choose(simrt.StFault, 3, 0)), Arg: c.Tape.Choose(simrt.StFault, 6, 0)}
+					}
+					c.Fault("command-failures")
+					c.Sample = "with failing commands: " + c.Sample
+				}
+			}
+			inc := RunInc(w, c.Tape, nil, 0, IncOpts{KillAt: -1, Strategy: strategyOf(c.Tape), Trace: c.Trace, Race: true, Fault: fault, Fault2: fault2})
 			c.Absorb(inc)
 			if v, ok := inconclusiveEnd(inc); ok {
 				return v
@@ -159,6 +182,28 @@ func lazyIPFanoutWF(c *Case) *WF {
 		}
 		oneToOne(w, fmt.Sprintf("use%d", i), up)
 	}
+	w.MaxTasks = 1 + t.Choose(simrt.StGen, 4, 0)
+	w.Bufsize = bufsizeOf(t)
+	return w
+}
+
+// taggerChainWF: source -> (process) -> MapToTags -> MapToTags -> process:
+// the second tagger writes the record the first may still be working on.
+func taggerChainWF(c *Case) *WF {
+	t := c.Tape
+	w := &WF{Name: "wf", Sources: map[string]string{}}
+	n := 1 + t.Choose(simrt.StGen, 4, 0)
+	e := Edge{srcNode(w, "src0", n, ""), "out"}
+	if t.Choose(simrt.StGen, 2, 0) == 1 {
+		e = Edge{oneToOne(w, "pre", e), "o0"}
+	}
+	k := 2 + t.Choose(simrt.StGen, 2, 0)
+	for i := 0; i < k; i++ {
+		ti := addNode(w, Node{Name: fmt.Sprintf("tag%d", i), Kind: KMapToTags, TagKey: fmt.Sprintf("k%d", i),
+			Ins: []InSpec{{Name: "in", From: []Edge{e}}}, Outs: []OutSpec{{Name: "out"}}})
+		e = Edge{ti, "out"}
+	}
+	oneToOne(w, "use", e)
 	w.MaxTasks = 1 + t.Choose(simrt.StGen, 4, 0)
 	w.Bufsize = bufsizeOf(t)
 	return w
